@@ -668,7 +668,9 @@ def rules(tier):
             # mutation sweep: the length filter guarded by min_length AND max_length
             ('C20.R14', _shared_rule('c20', 'r14_filter_guards')),
             # C20-eb: fall-back to raw_grammar.txt when the edited grammar.txt is empty
-            ('C20.R15', _shared_rule('plumbing', 'who_may'))]
+            ('C20.R15', _shared_rule('plumbing', 'who_may')),
+            # C20-ga: new_end = [] in front of the mask loop - tied masks produce guesses longer than the structure allows
+            ('C20.R16', _shared_rule('c04', 'r3_mask_slices'))]
 
 
 META = {
